@@ -2,14 +2,13 @@
    Statements only; proofs live in GT.HandlersProofs.  `handler`, `main_on_error`, `class_ok`,
    `handler_total` are assembled from the tables translated from /repo on every run
    (GTgen.HandlersGen: except clauses and f-strings of every build_tree_handling_errors, the exception
-   class lattice by reflection, main()'s error blocks).  `raises` - the exception classes a loader
-   raises on malformed bytes - is an explicit parameter; the fault enumeration (harness/pC20.py)
-   establishes HandlersSpec.raises_table and checks every observed class against it.
-
-   On the pinned tree `handler_total raises_table ft` is false for json, json5, plist, xml and html
-   (D13 a-d);
-   which file types satisfy it is evaluated at run time by the harness, so this file compiles before
-   and after the repairs. *)
+   class lattice by reflection, main()'s error blocks).  In the general lemmas `raises` - the
+   exception classes a loader raises on malformed bytes - is an explicit parameter; C20_full is the
+   property itself, unconditional, for HandlersSpec.raises_table (established by the fault
+   enumeration of harness/pC20.py, which checks every observed class against it) and the handlers of
+   the CURRENT source: its totality premise is discharged by computation over the translated tables,
+   so a handler that stops covering a tabulated class (D13 a-d coming back) makes GT.HandlersProofs
+   fail to compile, and the harness then searches the failing input.  No finding is open: no carve-out. *)
 From Coq Require Import String List Bool ZArith.
 Require Import GT.PyBase GT.HandlersSpec GTgen.HandlersGen GT.HandlersModel GT.HandlersProofs.
 Import ListNotations.
@@ -82,10 +81,11 @@ Theorem C20_total_sound : forall (raises : string -> list string) ft c x,
     reported path (main_on_error pos (handler ft path e)) = false.
 Proof. exact total_false_escape. Qed.
 
-(* unconditional: outside the classes of the open findings (HandlersSpec.known_gap, D13 a-d) every
-   tabulated loader exception of every text format is reported, for either file position *)
-Theorem C20_partial : forall ft e path pos, In ft text_types -> In (e_class e) (raises_table ft) ->
-  known_gap ft (e_class e) = false ->
+(* THE PROPERTY, unconditional: for every text format, every exception class its loader raises on
+   malformed bytes, either file position and every path: the handler of the current source returns
+   a message containing the file's name, main() writes it to standard error, writes nothing to
+   standard output (no diff), returns a non-zero status, and nothing escapes *)
+Theorem C20_full : forall ft e path pos, In ft text_types -> In (e_class e) (raises_table ft) ->
   exists m st err,
     handler ft path e = Message m
     /\ contains (basename path) m = true
@@ -94,19 +94,24 @@ Theorem C20_partial : forall ft e path pos, In ft text_types -> In (e_class e) (
     /\ err = render_writes m (me_writes (main_err_of pos))
     /\ contains (basename path) err = true
     /\ reported path (main_on_error pos (handler ft path e)) = true.
-Proof. exact HandlersProofs.C20_partial. Qed.
+Proof. exact HandlersProofs.C20_full. Qed.
 
-(* an instance that holds on the pinned tree and after the repairs *)
-Theorem C20_yaml : forall e path pos, In (e_class e) (raises_table "yaml") ->
-  reported path (main_on_error pos (handler "yaml" path e)) = true.
-Proof. exact yaml_reported. Qed.
+(* its premise, on its own: the translated handlers cover the whole table *)
+Theorem C20_table_total : forallb (handler_total raises_table) text_types = true.
+Proof. exact table_total. Qed.
+
+(* transfer to the observed runs: a case whose loader exception is tabulated and on which main() did
+   what the model says satisfies the executable statement of the property *)
+Theorem C20_transfer : forall c, In (c_ft c) text_types -> corr_C20 c = true -> holds_C20 c = true.
+Proof. exact HandlersProofs.C20_transfer. Qed.
 
 Print Assumptions C20_class.
 Print Assumptions C20_ft.
 Print Assumptions C20_all.
-Print Assumptions C20_partial.
+Print Assumptions C20_full.
+Print Assumptions C20_table_total.
+Print Assumptions C20_transfer.
 Print Assumptions C20_main_path.
 Print Assumptions C20_escape.
 Print Assumptions C20_message_names_file.
 Print Assumptions C20_total_sound.
-Print Assumptions C20_yaml.
